@@ -6,7 +6,7 @@ props = [json.loads(l) for l in open(os.path.join(V, 'properties.jsonl'))]
 
 CHECKS = {
  'C06': dict(level='model_checking', design='3/C06',
-   text='Push.tla models the parallel driver (per-worker queues from the name components, Consider = read earliest/apply/fetch_min, barrier, private rollback incl. renames, all rejects before any save, save micro-operations unlink/mkdir -p/create, backups, cleaning by the main thread after the join, recording); TLC checks over 9720 scenarios x ALL interleavings of 2 (thorough: 3) workers that every terminating behaviour leaves the reference Outcome. Binding: a stratified sample of scenarios is run by the real binary with 1,2,3,4,8,16 threads (free schedule) and under scripted schedules enforced by the baton hooks at every consider / file-operation point; snapshots must equal the single-threaded one and the reference, and the hook trace of every forced run must be accepted by TLC as a behaviour of Push.tla (Trace_Push).',
+   text='Push.tla models the parallel driver (per-worker queues from the name components, Consider = read earliest/apply/fetch_min, barrier, private rollback incl. renames, all rejects before any save, save micro-operations unlink/mkdir -p/create, backups, cleaning by the main thread after the join, recording); TLC checks over 17424 scenarios (11 abstract file patches incl. two that end in an error) x ALL interleavings of 2 (thorough: 3) workers that every terminating behaviour leaves the reference Outcome. Binding: a stratified sample of scenarios is run by the real binary with 1,2,3,4,8,16 threads (free schedule) and under scripted schedules enforced by the baton hooks at every consider / file-operation point; snapshots must equal the single-threaded one and the reference, and the hook trace of every forced run must be accepted by TLC as a behaviour of Push.tla (Trace_Push).',
    note='Trusted: TLC, hooks placed at every shared-state access, scen.py. Real OS schedules are not enumerated; model interleavings are, and sampled ones are forced on the binary.',
    technique='TLA+ driver model checked by TLC over all interleavings + forced-schedule replay and trace validation of the real binary'),
  'C18': dict(level='fault_enumeration', design='3/C18',
